@@ -65,6 +65,14 @@ theorem loops_match :
     resumePackets = ["provider=false;CurrentState=ticket.State,ReceiverTicket=ticket,ProviderTicket=ticket",
       "provider=true;CurrentState=state,ReceiverTicket=ticket,ProviderTicket=ticket"] := by decide
 
+/-- `clientdb.removeBidTemplate` / `DB.UpdateSidecar` have the shape `removeBidTemplate`/`updateSidecarDB` model: in
+particular a template that is already gone (`ErrBucketNotFound`) is tolerated. -/
+theorem removeBidTemplate_matches :
+    removeBidTemplateShape = ["bidBucket := sidecarBucket.Bucket", "if bidBucket == nil return nil",
+      "if ticketNonce == order.ZeroNonce return nil", "err := bidBucket.DeleteBucket",
+      "if err != bbolt.ErrBucketNotFound return err", "return nil"] ∧
+    updateSidecarTemplateGuard = "ticket.State.IsTerminal() && ticket.Order != nil" := by decide
+
 theorem finReturns_true : finReturns = true := by decide
 
 /-! ## case selection in closed form (both tickets non-nil) -/
